@@ -25,7 +25,7 @@ import (
 func init() {
 	Registry["C16"] = &Check{
 		Scenarios: c16Scenarios,
-		Rule: "a state machine shared by an accepted connection and a client dial still waiting for its CEA: CER / refused CER / DWR arriving on the accepted connection are answered there or not at all (nothing but the client's CER reaches the dialled connection); unhandled and undefined commands on streams {0,1,5,65535} of a multistream association; every answer of the grid is edited in place by its owner after it was checked (Result-Code AVP overwritten, AVP list extended): later answers are unaffected; the client side of a multistream association dialled with sm.Client (watchdog on / off, WatchdogStream 0 / 5) answers the peer's DWR on the stream it arrived on; the version octet of the request rotates over {1, 0, 2, 255}: the answer is built as a version-1 message; requests no handler is registered for (STR, CCR, RAR, an undefined command; P bit set / clear; T bit) on a bare ServeMux and on a state machine after the handshake: whatever the library sends back must mirror the request; complete grid: hop-by-hop and end-to-end ids from {0,1,2^31,2^32-1}^2 x all 256 command flag bytes x every (application, command) of the embedded dictionaries x result code {0 (none asked), 2001, 5012, 2^32-1} through Message.Answer; a second CER on a connection whose handshake has completed (if it is answered, the answer must mirror it); the state machine's success CEA, each failure CEA (5010, 5017, 5012, and 5012 for a CER that cannot be unmarshalled because the connection's dictionary lacks an AVP the CER struct names) and DWA for the same id grid over an in-memory transport; the same requests arriving on SCTP streams {0,1,5,15} of the in-memory multistream backend (and on a stream-less transport), answered by a handler through Answer().WriteTo (answers of ordinary size and of 65400..200000 octets, around and beyond 64 KiB; requests with one AVP and requests that consist of their header only; requests that are first relayed - the received message written with explicit other streams to an upstream multistream writer that accepts or refuses - and then answered; replies on a connection whose writer stream the application has pinned with SetWriterStream) and by the state machine: the backend must record the answer on the request's stream, also when the answer to a request is written later, while a request from another stream is being handled (all 16 stream pairs), also when the first 1 or 2 write attempts of that answer fail with a temporary error and are retried (WriteToWithRetry); and two application goroutines answering requests of different streams concurrently (every schedule up to preemption bound 2, thorough 3), on an association attached with NewConn and on one accepted by a Server with ReadTimeout and WriteTimeout set.",
+		Rule: "a state machine shared by an accepted connection and a client dial still waiting for its CEA: CER / refused CER / DWR arriving on the accepted connection are answered there or not at all (nothing but the client's CER reaches the dialled connection); unhandled and undefined commands on streams {0,1,5,65535} of a multistream association; every answer of the grid is edited in place by its owner after it was checked (Result-Code AVP overwritten, AVP list extended): later answers are unaffected; the client side of a multistream association dialled with sm.Client (watchdog on / off, WatchdogStream 0 / 5) answers the peer's DWR on the stream it arrived on; the version octet of the request rotates over {1, 0, 2, 255}: the answer is built as a version-1 message; requests no handler is registered for (STR, CCR, RAR, an undefined command; P bit set / clear; T bit) on a bare ServeMux and on a state machine after the handshake: whatever the library sends back must mirror the request; complete grid: hop-by-hop and end-to-end ids from {0,1,2^31,2^32-1}^2 x all 256 command flag bytes x every (application, command) of the embedded dictionaries x result code {0 (none asked), 2001, 5012, 2^32-1} through Message.Answer; a second CER on a connection whose handshake has completed (if it is answered, the answer must mirror it); the state machine's success CEA, each failure CEA (5010, 5017, 5012, and 5012 for a CER that cannot be unmarshalled because the connection's dictionary lacks an AVP the CER struct names) and DWA for the same id grid over an in-memory transport; watchdog requests lacking Origin-Host, Origin-Realm or both over the same grid (whether they are answered is left open: an answer that is written mirrors identifiers, command, flags and stream); the same requests arriving on SCTP streams {0,1,5,15} of the in-memory multistream backend (and on a stream-less transport), answered by a handler through Answer().WriteTo (answers of ordinary size and of 65400..200000 octets, around and beyond 64 KiB; requests with one AVP and requests that consist of their header only; requests that are first relayed - the received message written with explicit other streams to an upstream multistream writer that accepts or refuses - and then answered; replies on a connection whose writer stream the application has pinned with SetWriterStream) and by the state machine: the backend must record the answer on the request's stream, also when the answer to a request is written later, while a request from another stream is being handled (all 16 stream pairs), also when the first 1 or 2 write attempts of that answer fail with a temporary error and are retried (WriteToWithRetry); and two application goroutines answering requests of different streams concurrently (every schedule up to preemption bound 2, thorough 3), on an association attached with NewConn and on one accepted by a Server with ReadTimeout and WriteTimeout set.",
 		Assume: []string{"single default schedule per exchange", "in-memory SCTP backend (hook diam/sctp_verif.go)"},
 		QuickBudget: 120, ThoroughBudget: 900,
 	}
@@ -39,7 +39,7 @@ func c16Scenarios(tier string) []*Scenario {
 		i := i
 		out = append(out, &Scenario{Name: fmt.Sprintf("answer-grid/hbh=%#x", c16IDs[i]), Seq: func(r *SeqResult) { c16Grid(r, c16IDs[i]) }})
 	}
-	for _, kind := range []string{"cer-ok", "cer-noapp", "cer-inband", "cer-nohost", "dwr", "cer-privdict"} {
+	for _, kind := range []string{"cer-ok", "cer-noapp", "cer-inband", "cer-nohost", "dwr", "cer-privdict", "dwr-nohost", "dwr-norealm", "dwr-bare"} {
 		kind := kind
 		out = append(out, &Scenario{Name: "state-machine/" + kind, Seq: func(r *SeqResult) { c16SM(r, kind) }})
 	}
@@ -169,6 +169,11 @@ func c16Request(kind string, hbh, ee uint32, flags uint8) []byte {
 		return cer(4, u32avp(299, 1))
 	case "dwr":
 		return refcodec.EncodeMessage(refcodec.Header{Version: 1, Flags: flags, Code: 280, HbH: hbh, E2E: ee}, base)
+	case "dwr-nohost", "dwr-norealm", "dwr-bare":
+		// watchdog requests that lack Origin-Host, Origin-Realm or both: whether they are answered is
+		// not the point here - an answer, if one is written, mirrors the request like any other
+		avps := map[string][]refcodec.Node{"dwr-nohost": base[1:], "dwr-norealm": base[:1], "dwr-bare": nil}[kind]
+		return refcodec.EncodeMessage(refcodec.Header{Version: 1, Flags: flags, Code: 280, HbH: hbh, E2E: ee}, avps)
 	}
 	panic(kind)
 }
@@ -225,7 +230,7 @@ func c16SM(r *SeqResult, kind string) {
 								return
 							}
 							p := &Peer{C: conn}
-							if kind == "dwr" {
+							if strings.HasPrefix(kind, "dwr") {
 								conn.Deliver(c16Request("cer-ok", 7, 8, 0x80))
 								if p.Next() == nil {
 									return
@@ -244,7 +249,7 @@ func c16SM(r *SeqResult, kind string) {
 							return
 						}
 						want := 1
-						if kind == "dwr" {
+						if strings.HasPrefix(kind, "dwr") {
 							be.Deliver(uint16(stream), c16Request("cer-ok", 7, 8, 0x80))
 							want = 2
 						}
@@ -262,7 +267,10 @@ func c16SM(r *SeqResult, kind string) {
 						continue
 					}
 					v := ""
-					if ans == nil {
+					optional := strings.HasPrefix(kind, "dwr-")
+					if ans == nil && optional {
+						// not answered: nothing to mirror
+					} else if ans == nil {
 						v = "no answer was written"
 					} else {
 						h, _ := refcodec.DecodeHeader(ans)
@@ -277,8 +285,11 @@ func c16SM(r *SeqResult, kind string) {
 						if kind != "cer-ok" && kind != "dwr" {
 							wantFlags |= 0x20 // error answers carry the E bit
 						}
+						if optional {
+							wantFlags = h.Flags&0x20 | flags&^0x80 // with or without the E bit
+						}
 						wantCode := uint32(257)
-						if kind == "dwr" {
+						if strings.HasPrefix(kind, "dwr") {
 							wantCode = 280
 						}
 						switch {
@@ -288,9 +299,9 @@ func c16SM(r *SeqResult, kind string) {
 							v = fmt.Sprintf("answer ids %#x/%#x, request ids %#x/%#x", h.HbH, h.E2E, hbh, ee)
 						case h.Flags != wantFlags:
 							v = fmt.Sprintf("answer flags %#x, expected %#x", h.Flags, wantFlags)
-						case !bytes.Equal(rc, refcodec.U32(c16WantRC[kind])):
+						case !optional && !bytes.Equal(rc, refcodec.U32(c16WantRC[kind])):
 							v = fmt.Sprintf("Result-Code %x, expected %d", rc, c16WantRC[kind])
-						case len(recs) == 0 || recs[0].Code != 268:
+						case !optional && (len(recs) == 0 || recs[0].Code != 268):
 							v = "Result-Code is not the first AVP"
 						case stream >= 0 && ansStream != stream:
 							v = fmt.Sprintf("request arrived on stream %d, the answer was written to stream %d", stream, ansStream)
